@@ -72,6 +72,46 @@ def c01_require(agg):
     return need
 
 
+# ------------------------------------------------------------------ C02
+
+def c02_env(b):
+    e = {}
+    sb = [8192, 16384, None, 4096][b % 4]
+    if sb:
+        e["IPCMON_SNDBUF"] = sb
+    if b % 3 != 2:
+        e["IPCMON_WIDEN"] = "1:%d:%d" % ([300, 1500, 4000][b % 3], (sb or 212992) // 2)
+    if b % 5 in (1, 3):
+        e["IPCMON_DELAY"] = "%d:%d:%d" % (b + 1, 150, 400)
+    return e
+
+
+def c02_plan(tier, seed):
+    out = []
+    n = 14 if tier == "quick" else 48
+    for j in jobs("os-debug", "c02", n, c02_env, timeout=900):
+        j["opts"]["cpus"] = [1, 2, 0][j["batch"] % 3]
+        j["opts"]["histories"] = 40 if tier == "quick" else 150
+        out.append(j)
+    for j in jobs("inproc-debug", "c02", 2 if tier == "quick" else 6, None, timeout=900):
+        j["opts"]["cpus"] = [0, 2][j["batch"] % 2]
+        j["opts"]["histories"] = 20 if tier == "quick" else 150
+        out.append(j)
+    return out
+
+
+def c02_require(agg):
+    st = agg["stats"]
+    need = []
+    if st.get("overlapping_multipacket_pairs", 0) < 1:
+        need.append("no pair of overlapping multi-packet sends from different handles")
+    if st.get("ordered_pairs_cross_handle", 0) < 1:
+        need.append("no real-time ordered pair of sends across different handles")
+    if st.get("process_senders", 0) < 1:
+        need.append("no sender process took part")
+    return need
+
+
 HOOKS = {
     "guard": "ipc_channel_verif",
     "enable": "no source hooks are used: every monitor observes the public API, the libc boundary (LD_PRELOAD interposer), /proc or sanitizer instrumentation; checks build /repo unmodified",
@@ -87,6 +127,24 @@ NOTES = ("Runtime monitoring and sanitizers. ./check <id> rebuilds the harness (
 NOT_APPLICABLE = {}
 
 PROPS = {
+    "C02": {
+        "plan": c02_plan,
+        "level": "exploration",
+        "level_text": "Exploration: hundreds (quick) to thousands (thorough) of stamped concurrent histories with 1..8 sender handles "
+                      "(clones, clones that travelled through a channel, exec'd processes) are checked offline for integrity, exactly-once "
+                      "and the real-time order clause; schedules are reached by stress, CPU pinning, seeded delays and a deterministic "
+                      "pause between the first and second packet of every multi-packet send. The exhaustive abstract packet-protocol model "
+                      "the quantifier mentions belongs to another technique family and is not claimed.",
+        "level_note": "Stamps are CLOCK_MONOTONIC taken at the client boundary; only stamp-ordered pairs are constrained, overlapping sends may be "
+                      "delivered in either order. Trusts the kernel's per-socket FIFO behaviour.",
+        "technique": "runtime monitoring: client-boundary history recording with unique message ids + offline O(n) real-time-order/exactly-once checker under delay and window-widening injection",
+        "require": c02_require,
+        "rule": "one history = 1..8 senders x 5..200 messages (0 B, small, F1-1/F1/F1+1, 2-6 packets) against a receiver that is eager, "
+                "delayed, polling with try_recv or a receiver set; distinct = hash of the delivered sender sequence together with sender count and "
+                "receiver mode; non-trivial = at least two concurrent sender handles",
+        "assumptions": ["CLOCK_MONOTONIC is consistent across threads and processes of this machine",
+                        "the exhaustive packet-level model of the quantifier is out of reach for runtime monitoring and not claimed"],
+    },
     "C01": {
         "plan": c01_plan,
         "level": "exploration",
